@@ -1149,6 +1149,9 @@ fn directed() -> Vec<(&'static str, bool, String)> {
         ("F06-fixed", false, format!("testdata | ua {} {} ; ue 2 2", ws, bs)),
         ("F06-fixed", false, format!("testdata | ua {} {} ; ue -1 1 ; ue 0 0 ; ue 1 -1 ; ue -2 -2 ; ue -3 3", ws, bs)),
         ("F40-fixed", false, "testdata | d 104 ; d 107 ; d 52 ; d 65 ; ci chewing.auto_commit_threshold 0 ; k down ; cx 9 ; d 52".into()),
+        // F41: simple engine, single-word list, chewing_cand_list_first extended the range over the following symbol
+        ("F41-fixed", false, "testdata | d 104 ; d 107 ; d 52 ; d 33 ; k home ; k del ; ci chewing.conversion_engine 0 ; d 104 ; d 107 ; d 52 ; cf ; cx 0 ; ci chewing.conversion_engine 1 ; k enter".into()),
+        ("F41-fixed", false, "testdata | d 104 ; d 107 ; d 52 ; d 33 ; k home ; k del ; ci chewing.conversion_engine 0 ; d 104 ; d 107 ; d 52 ; cf ; cf ; cl ; cx 0 ; ci chewing.conversion_engine 2 ; k enter".into()),
     ]
 }
 
